@@ -171,6 +171,8 @@ pub struct Faults;
 pub async fn run_fault_case(case: &C09Case, obs: &mut Obs) {
 	crate::panics::clear_local();
 	let mut w = World::new(ClientCfg { id_kind: case.id_kind, ping: case.fault == Fault::PingFails, mw_last: case.after.len() % 2 == 1, ws_builder: case.during.len() % 2 == 1, ..ClientCfg::default() });
+	// (the deadline of every call is the configured request timeout, whichever builder and setter order made the client)
+	obs.check(w.mc.client.request_timeout() == REQUEST_TIMEOUT, "c09/request-timeout-not-the-configured-one", || format!("configured {REQUEST_TIMEOUT:?}, the client reports {:?}; ws_builder={} mw_last={}", w.mc.client.request_timeout(), case.during.len() % 2 == 1, case.after.len() % 2 == 1));
 	// ---- the history before the fault
 	let mut want_before: Vec<Option<Outcome>> = vec![];
 	for p in &case.pre {
